@@ -132,6 +132,10 @@ def load_package(root: Optional[Path] = None) -> Package:
         except SyntaxError as exc:
             raise AnalysisError(f"{path}: does not parse: {exc}") from exc
         _set_parents(tree)
+        if not os.environ.get("VERIF_NO_ALPHA"):
+            from . import alpha
+
+            alpha.normalise(name, tree)  # pure renamings of locals are undone in memory (see sa/alpha.py)
         for node in ast.walk(tree):
             node._module = name  # type: ignore[attr-defined]
         package.modules[name] = Module(name=name, path=path, source=source, tree=tree, digest=hashlib.sha256(source.encode()).hexdigest())
